@@ -224,6 +224,8 @@ pub struct Broken {
 pub const BAD_REFS: &[&str] = &[
     "&#;", "&#x;", "&#xg;", "&#12 ", "&nosuch;", "&#+65;", "&#x+41;", "&# 65;", "&#0;", "&#1;", "&#8;", "&#xB;", "&#xC;", "&#xE;", "&#x1F;",
     "&#xD800;", "&#xDFFF;", "&#xFFFE;", "&#xFFFF;", "&#x110000;", "&#99999999999;", "&#x-41;", "&;", "&#-1;", "&amp", "&#65",
+    // values that wrap to a legal character modulo 2^32 / 2^64
+    "&#x100000041;", "&#4294967361;", "&#x10000000A;", "&#18446744073709551681;", "&#x10000000000000041;",
 ];
 
 fn insert(text: &str, at: usize, what: &str) -> String {
@@ -396,7 +398,12 @@ pub fn break_it(doc: &ANode, r: &Rendered, k: usize, rng: &mut Rng, fragment: bo
         }
         13 => {
             let s = starts[rng.below(starts.len())];
-            b(insert(t, s.end, " zz:k=\"v\""), "undeclared-prefix-on-attribute", false)
+            match rng.below(4) {
+                // xmlns:p="" binds p to nothing: the prefix stays undeclared (and the declaration itself is not allowed)
+                0 => b(insert(t, s.end, " xmlns:zq=\"\" zq:k=\"v\""), "prefix-declared-with-empty-value-then-used", false),
+                1 => b(insert(t, s.end, " xmlns:zq=\"\""), "prefix-declared-with-empty-value", false),
+                _ => b(insert(t, s.end, " zz:k=\"v\""), "undeclared-prefix-on-attribute", false),
+            }
         }
         14 => {
             // undeclared prefix on an element (start and end tag consistently)
